@@ -62,6 +62,15 @@ func (w *monWAL) Save(h raftpb.HardState, es []raftpb.Entry, s raftpb.Snapshot) 
 		if li, e := w.WAL.LastIndex(); e == nil {
 			w.v.last = li
 		}
+		// every durable write is a possible crash point: what the store holds now must be something raft restarts from
+		// (its loadState refuses a commit index outside [first index - 1, last index] with a panic)
+		if hs, _, e1 := w.WAL.InitialState(); e1 == nil && !isEmptyHS(hs) {
+			fi, e2 := w.WAL.FirstIndex()
+			li, e3 := w.WAL.LastIndex()
+			if e2 == nil && e3 == nil && (hs.Commit+1 < fi || hs.Commit > li) {
+				w.v.violation = append(w.v.violation, fmt.Sprintf("after a durable write the store holds commit index %d outside its log [%d, %d]: a crash at this point leaves a replica that cannot restart", hs.Commit, fi-1, li))
+			}
+		}
 		if w.v.terms == nil {
 			w.v.terms = map[uint64]uint64{}
 		}
@@ -488,7 +497,7 @@ func runC05Schedule(r *rng, nEvents int, script []string) (c05Case, error) {
 
 func runC05(a *args) error {
 	r := newRng(a.seed)
-	st := newStats("3-replica partition groups on a simulated cluster: three scripted prologues (a deposed leader's uncommitted tail overwritten by a shorter suffix, then a restart of that replica - twice; writes, idling, local snapshot + compaction on every replica, then each replica restarted in turn) and schedules of 25..45 events — writes through any connected node (55%), cutting one node off / healing (message loss in both directions), crash of one replica (clean stop or abrupt) and restart through the real boot path with the partition's node ids; every raft message checked against the sender's durable state (vote grants, append acknowledgements, terms), every Save checked for a hard state moving backwards, every reopened log compared with the log that was made durable (last index, term at every index), convergence and explained contents after faults stop; non-trivial = contains a crash+restart and a cut; distinct by hash of the event list")
+	st := newStats("3-replica partition groups on a simulated cluster: four scripted prologues (the fourth: a replica brought up to date by a snapshot message after the others compacted) (a deposed leader's uncommitted tail overwritten by a shorter suffix, then a restart of that replica - twice; writes, idling, local snapshot + compaction on every replica, then each replica restarted in turn) and schedules of 25..45 events — writes through any connected node (55%), cutting one node off / healing (message loss in both directions), crash of one replica (clean stop or abrupt) and restart through the real boot path with the partition's node ids; every raft message checked against the sender's durable state (vote grants, append acknowledgements, terms), every Save checked for a hard state moving backwards, every reopened log compared with the log that was made durable (last index, term at every index), convergence and explained contents after faults stop; non-trivial = contains a crash+restart and a cut; distinct by hash of the event list")
 	var cases []c05Case
 	seen := map[string]bool{}
 	for i := 0; i < a.n; i++ {
@@ -504,6 +513,11 @@ func runC05(a *args) error {
 			// writes, then the group idles (the last commit advance reaches every replica in a Ready that carries nothing
 			// else), every replica compacts its log at its applied index, and each is stopped and restarted in turn
 			script = []string{"W1", "W2", "W3", "W1", "W2", "S", "P1", "P2", "P3", "K2", "S", "R", "S", "K1", "S", "R", "S", "K3", "S", "R", "S", "W1"}
+		case 3:
+			// a replica is down while the others write and compact their logs past what it has: on its return the leader
+			// brings it up to date with a snapshot message (the received snapshot, the hard state and the entries of that
+			// Ready are one durable write)
+			script = []string{"W1", "W2", "S", "K3", "S", "W1", "W2", "W1", "W2", "S", "P1", "P2", "R", "S", "W1", "S"}
 		}
 		cs, err := runC05Schedule(r.fork(), 25+r.intn(21), script)
 		if err != nil {
